@@ -10,7 +10,7 @@
    engine) and ties the implementation model to the engine by comparing error sets. *)
 From Coq Require Import ZArith List String Bool.
 From TV Require Import Py.Prelude Model.Schema Model.ImplInput Model.ImplExec Model.Envelope
-     Model.ImplValidate Model.SpecValidate Model.RunValidate Proofs.ValidateProofs Proofs.ValidateRules.
+     Model.ImplValidate Model.SpecValidate Model.RunValidate Proofs.ValidateProofs Proofs.ValidateRules Proofs.ValidateValues Proofs.ValidateSites Proofs.ValidateWalk.
 Import ListNotations.
 Open Scope string_scope.
 Open Scope list_scope.
@@ -61,6 +61,65 @@ Theorem C06_rules_read_the_documents_spreads V doc :
   frag_spreads (walked V doc) = doc_spreads doc.
 Proof. apply walked_spreads. Qed.
 
+(* THE WALK IS A PURE FUNCTION OF THE TYPE SCOPE (Proofs/ValidateWalk.v): from EVERY state of the shared
+   context, walking a selection appends exactly sel_errs -- defined by recursion on the selection with the
+   scope handed down as the parent_type bookkeeping does -- or ends crashed when a rule raises, and restores
+   the scope.  A state already refused stays as it is. *)
+Theorem C06_walk_is_a_function_of_the_scope V path s st :
+  obs st (walk_selection V path s st) (sel_errs V (parent_type st) path s) /\
+  parent_type (walk_selection V path s st) = parent_type st.
+Proof. exact (walk_selection_obs V path s st). Qed.
+
+(* ACCEPTANCE DECOMPOSED: a document reaches the executor exactly when the walk phase and every
+   document-level rule report nothing and none raises *)
+Theorem C06_acceptance_decomposed V doc :
+  accepted V doc = true <->
+  quiet (walk_phase_errs V doc) /\
+  (quiet (cycle_rule (fragments doc)) /\ operation_name_errors (operations doc) = [] /\
+   lone_anonymous_errors (operations doc) = [] /\
+   quiet (single_root_rule doc) /\ fragment_name_errors (fragments doc) = [] /\
+   spread_target_errors (fragments doc) (frag_spreads (ValidateWalk.walked V doc)) = [] /\
+   must_be_used_errors (fragments doc) (frag_spreads (ValidateWalk.walked V doc)) = [] /\
+   inline_possible_errors V (inlined_in (ValidateWalk.walked V doc)) ++
+     spread_possible_errors V (fragments doc) (spreaded_in (ValidateWalk.walked V doc)) = [] /\
+   quiet (uses_defined_rule (ValidateWalk.walked V doc) (operations doc)) /\
+   quiet (variables_used_rule (ValidateWalk.walked V doc) (operations doc)) /\
+   quiet (usages_allowed_rule V (ValidateWalk.walked V doc) (operations doc))).
+Proof. rewrite accepted_iff_clean. apply validate_clean_iff. Qed.
+
+(* 5.6.1 values of correct type, exact at every depth (list items, input-object fields, self-referential input
+   types): a literal the specification accepts for its expected type leaves the rule's accumulator untouched.
+   Hypotheses: expected types are input types (what C12 guarantees of every schema an engine is built from). *)
+Theorem C06_correct_values_accepted V
+  (Hin : forall n ifs f, vfind_type V n = Some (DInput ifs) -> In f ifs -> input_ty V (in_type f))
+  v path argloc c acc :
+  input_ty V c -> value_ok V v c = true -> vct V path argloc v c acc = Some acc.
+Proof. intros Hc H. exact (proj1 (vct_exact V Hin v path argloc c acc Hc) H). Qed.
+
+Theorem C06_correct_arguments_accepted V
+  (Hin : forall n ifs f, vfind_type V n = Some (DInput ifs) -> In f ifs -> input_ty V (in_type f))
+  path ds args :
+  (forall d, In d ds -> input_ty V (in_type d)) -> args_ok V ds args = true ->
+  vct_arguments V path (Some ds) args = Some [].
+Proof. intros Hd H. exact (proj1 (vct_arguments_exact V Hin path ds args Hd) H). Qed.
+
+(* one field node: the six rules run at a field are quiet EXACTLY when the specification's predicates hold at
+   that site (directive locations, field exists, leaf selection, values / names / required arguments) *)
+Theorem C06_field_node_exact V
+  (Hin : forall n ifs f, vfind_type V n = Some (DInput ifs) -> In f ifs -> input_ty V (in_type f))
+  scope path l name args dirs hs :
+  (forall f d, vfind_field V scope name = Some f -> In d (fd_args f) -> input_ty V (in_type d)) ->
+  (field_rules_errs V scope path l name args dirs hs = Some [] <->
+   forallb (fun d => match s_directive V (d_name d) with Some dd => mem_str "FIELD" (dd_locs dd) | None => true end) dirs = true /\
+   (String.eqb name "__typename" = true \/ field_reduced_type V scope name <> None) /\
+   (forall d, field_reduced_type V scope name = Some d -> Bool.eqb hs (is_composite_def d) = true) /\
+   (forall f, vfind_field V scope name = Some f ->
+      args_ok V (fd_args f) args = true /\
+      forallb (fun a => existsb (fun d => String.eqb (in_name d) (a_name a)) (fd_args f)) args = true /\
+      forallb (fun d => negb (is_non_null (in_type d)) || match in_default d with Some _ => true | None => false end ||
+                        existsb (fun a => String.eqb (a_name a) (in_name d)) args) (fd_args f) = true)).
+Proof. exact (field_node_quiet V Hin scope path l name args dirs hs). Qed.
+
 (* a document the walk accepts is executed: the response is that of the executor on that document *)
 Theorem C06_accepted_documents_run {A} (coercer : gerr -> A) V U cfg doc opname raw root :
   impl_validate V doc = VErrors [] ->
@@ -97,3 +156,8 @@ Print Assumptions C06_used_fragments_accepted.
 Print Assumptions C06_defined_spread_targets_accepted.
 Print Assumptions C06_walk_records_exactly_the_documents_spreads.
 Print Assumptions C06_rules_read_the_documents_spreads.
+Print Assumptions C06_walk_is_a_function_of_the_scope.
+Print Assumptions C06_acceptance_decomposed.
+Print Assumptions C06_correct_values_accepted.
+Print Assumptions C06_correct_arguments_accepted.
+Print Assumptions C06_field_node_exact.
